@@ -4,7 +4,7 @@ From RJ Require Import Base.Outcome Base.F64 Model.Token Model.Ast Model.RefCore
 From RJ Require Import Proofs.RefSem_proofs Proofs.RefSem_laws Proofs.RefSem_params.
 From RJ Require Import Model.Analyze Proofs.RefScope_defs Proofs.RefScope_main Proofs.RefScope_static.
 From RJ Require Import Proofs.RefInherit_proofs Proofs.RefNeed_proofs.
-From RJ Require Import Proofs.RefDead_defs Proofs.RefDead_proofs Proofs.RefDead_main Proofs.RefDead_thm Proofs.RefDead_builtins Proofs.RefDead_final Proofs.RefCoin_proofs.
+From RJ Require Import Proofs.RefDead_defs Proofs.RefDead_proofs Proofs.RefDead_main Proofs.RefDead_thm Proofs.RefDead_builtins Proofs.RefDead_final Proofs.RefCoin_proofs Proofs.RefShift_proofs Proofs.RefShift_thm.
 Local Open Scope N_scope.
 
 (* ---- the interpreter is a function; more fuel / a larger stack limit never change a verdict ---- *)
@@ -251,10 +251,16 @@ Theorem C02_rw_local_name_source : forall sp sp2 xid e f c,
   run (S (S (S f))) c (ELocal sp [MkBind xid None e] (EIdent sp2 xid)) = run_top_at 1 (desugar e) c (run_task f c).
 Proof. exact rw_local_name_source. Qed.
 
-(* what separates `run_top_at 1 e` from `run e`: shifting every depth and the limit by one (goal) *)
-Definition C02_goal_depth_shift : Prop := forall x f lim b ts,
-  run_top_at 1 x {| c_limit := lim + 1; c_bfs := b; c_ts_tail := ts |} (run_task f {| c_limit := lim + 1; c_bfs := b; c_ts_tail := ts |})
-  = run_core f {| c_limit := lim; c_bfs := b; c_ts_tail := ts |} x.
+(* depth-shift invariance: depth d+1 under limit L+1 is depth d under limit L *)
+Theorem C02_depth_shift : forall c c' f t d, cfgs c c' -> run_task f c' t (d + 1) = run_task f c t d.
+Proof. exact depth_shift. Qed.
+
+(* local x = e; x  gives exactly the result of the program e (one more frame of stack, three more units of fuel) *)
+Theorem C02_rw_local_name_full : forall x e f c c',
+  cfgs c c' -> closed (rm x [s_std]) false e ->
+  settled (snd (run_core f c e)) -> snd (run_core f c e) <> Err EStackOverflow ->
+  run_core (S (S (S f))) c' (CLocal [(x, e)] (CVar x)) = run_core f c e.
+Proof. exact rw_local_name_full. Qed.
 
 (* ---- not proved (kept as goals): the two documented deviations of the implementation can only
         change WHICH error is reported, or turn an error into a value — never a value ---- *)
@@ -381,3 +387,5 @@ Print Assumptions C02_dead_local_irrelevant.
 Print Assumptions C02_extra_frame_invisible.
 Print Assumptions C02_rw_local_name_bare.
 Print Assumptions C02_rw_local_name_source.
+Print Assumptions C02_depth_shift.
+Print Assumptions C02_rw_local_name_full.
